@@ -10,6 +10,12 @@
 (* may arrive through two chains, so pieces overlap in range and repeat).   *)
 (* Ghost variables cov/gen are the property-level view (C11): blocks        *)
 (* received since the last completion, and the buffer incarnation.          *)
+(* Epochs: FixEpochs = FALSE is the code as found (every buffer starts at   *)
+(* epoch 0, so the callback of a freed buffer matches a newer buffer of the *)
+(* same key: finding K5, NoStaleCull fails); FixEpochs = TRUE is the        *)
+(* repaired code: `retired` is the highest epoch of any freed buffer and a  *)
+(* new buffer starts there, so its epochs are above those of every callback *)
+(* still pending.                                                           *)
 (***************************************************************************)
 EXTENDS Integers, Sequences, FiniteSets, TLC
 CONSTANTS Keys, DLen, Nfbs, MaxArrivals, FixEpochs
@@ -20,8 +26,8 @@ PiecesOf(n, nfb) == {<<fo, IF fo + nfb >= n THEN n - fo ELSE nfb, fo + nfb < n>>
 Universe(k) == UNION {PiecesOf(DLen[k], f) : f \in Nfbs}
 Blk(p) == p[1]..(p[1] + p[2] - 1)
 
-VARIABLES buf, timers, arrivals, last, cov, gen
-vars == <<buf, timers, arrivals, last, cov, gen>>
+VARIABLES buf, timers, arrivals, last, cov, gen, retired
+vars == <<buf, timers, arrivals, last, cov, gen, retired>>
 
 Init == /\ buf = [k \in Keys |-> Nil]
         /\ timers = {}               \* pending expiry callbacks <<k, epoch, gen>>
@@ -29,6 +35,7 @@ Init == /\ buf = [k \in Keys |-> Nil]
         /\ last = [kind |-> "none"]
         /\ cov = [k \in Keys |-> {}]
         /\ gen = [k \in Keys |-> 0]
+        /\ retired = 0
 
 Max2(a, b) == IF a > b THEN a ELSE b
 \* final assembly (after the F6 repair): pieces in offset order, each contributes only missing blocks
@@ -41,6 +48,7 @@ Assemble(ps, acc) ==      \* ps: set of <<fo, n, arrivalNo>>, acc: sequence of b
        IN IF start + p[2] <= have THEN Assemble(ps \ {p}, acc)
           ELSE Assemble(ps \ {p}, acc \o [i \in 1..(start + p[2] - Max2(start, have)) |-> Max2(start, have) + i - 1])
 
+Retire(b) == IF b.alloc THEN Max2(retired, b.epoch) ELSE retired
 Receive(k, p) ==
   /\ arrivals < MaxArrivals
   /\ arrivals' = arrivals + 1
@@ -49,8 +57,9 @@ Receive(k, p) ==
           /\ last' = [kind |-> "complete", k |-> k, data |-> [i \in 1..p[2] |-> i - 1]]
           /\ cov' = [cov EXCEPT ![k] = {}]
           /\ gen' = [gen EXCEPT ![k] = @ + 1]
+          /\ retired' = Retire(buf[k])
           /\ UNCHANGED timers
-     ELSE LET b0 == IF buf[k].alloc THEN buf[k] ELSE [alloc |-> TRUE, rcv |-> {}, pieces |-> {}, tdl |-> 0, epoch |-> 0]
+     ELSE LET b0 == IF buf[k].alloc THEN buf[k] ELSE [alloc |-> TRUE, rcv |-> {}, pieces |-> {}, tdl |-> 0, epoch |-> IF FixEpochs THEN retired ELSE 0]
               b1 == [b0 EXCEPT !.pieces = @ \cup {<<p[1], p[2], arrivals>>},
                                !.rcv = @ \cup Blk(p),
                                !.tdl = IF ~p[3] THEN p[1] + p[2] ELSE @]
@@ -60,24 +69,26 @@ Receive(k, p) ==
                   /\ last' = [kind |-> "complete", k |-> k, data |-> Assemble(b1.pieces, <<>>)]
                   /\ cov' = [cov EXCEPT ![k] = {}]
                   /\ gen' = [gen EXCEPT ![k] = @ + 1]
+                  /\ retired' = Max2(retired, b1.epoch)
                   /\ UNCHANGED timers
              ELSE /\ buf' = [buf EXCEPT ![k] = [b1 EXCEPT !.epoch = @ + 1]]
                   /\ last' = [kind |-> "incomplete", k |-> k, covers |-> (DLen[k] > 0 /\ (0..(DLen[k] - 1)) \subseteq (cov[k] \cup Blk(p)) /\ b1.tdl # 0)]
                   /\ cov' = [cov EXCEPT ![k] = @ \cup Blk(p)]
                   /\ timers' = timers \cup {<<k, b1.epoch + 1, gen[k]>>}
-                  /\ UNCHANGED gen
+                  /\ UNCHANGED <<gen, retired>>
 
 \* the callback fires (each once); the code compares epochs only
 Expire(t) ==
   /\ t \in timers
   /\ timers' = timers \ {t}
   /\ LET k == t[1] IN
-     IF buf[k].alloc /\ buf[k].epoch = t[2] /\ (FixEpochs => gen[k] = t[3])
+     IF buf[k].alloc /\ buf[k].epoch = t[2]
      THEN /\ buf' = [buf EXCEPT ![k] = Nil]
           /\ cov' = [cov EXCEPT ![k] = {}]
           /\ gen' = [gen EXCEPT ![k] = @ + 1]
+          /\ retired' = Retire(buf[k])
           /\ last' = [kind |-> "culled", k |-> k, stale |-> gen[k] # t[3]]
-     ELSE /\ UNCHANGED <<buf, cov, gen>>
+     ELSE /\ UNCHANGED <<buf, cov, gen, retired>>
           /\ last' = [kind |-> "kept", k |-> k]
   /\ UNCHANGED arrivals
 
@@ -92,6 +103,6 @@ CompleteIff == last.kind = "incomplete" => ~last.covers
 \* the RFC bitmap equals the property-level coverage
 CovInv == \A k \in Keys : buf[k].alloc => buf[k].rcv = cov[k]
 NoLeak == \A k \in Keys : ~buf[k].alloc => cov[k] = {}
-\* a buffer is only discarded by its own (latest) timer  -- FALSE for the code as found (finding K5)
+\* a buffer is only discarded by a callback of its own incarnation -- FALSE for the code as found (finding K5)
 NoStaleCull == last.kind = "culled" => ~last.stale
 =============================================================================
